@@ -2,11 +2,11 @@ package main
 
 import (
 	"fmt"
-	"os"
-	"strings"
 	"go/token"
 	"go/types"
+	"os"
 	"sort"
+	"strings"
 
 	"golang.org/x/tools/go/ssa"
 )
@@ -1377,54 +1377,86 @@ func rulePidxRange(p *Prog, r *RuleResult) {
 		fname := p.FnName(f)
 		// a range test of an element chosen by a non-constant index, one of whose edges returns an error, before the hand-off
 		okTest := false
-		for _, b := range f.Blocks {
-			ifi := blockIf(b)
-			if ifi == nil {
-				continue
-			}
-			atom, pos := condAtom(ifi.Cond)
-			bo, ok := atom.(*ssa.BinOp)
-			if !ok {
-				continue
-			}
-			switch bo.Op {
-			case token.LSS, token.LEQ, token.GTR, token.GEQ:
-			default:
-				continue
-			}
-			isElem := func(v ssa.Value) bool {
-				v = stripConv(v)
-				if c, ok := v.(*ssa.Call); ok && c.Call.StaticCallee() != nil && accessor[c.Call.StaticCallee()] && len(c.Call.Args) == 2 {
-					_, isConst := c.Call.Args[1].(*ssa.Const)
-					return !isConst
+		rangeTestIn := func(g *ssa.Function, mustReach *ssa.BasicBlock) bool {
+			found := false
+			for _, b := range g.Blocks {
+				ifi := blockIf(b)
+				if ifi == nil {
+					continue
 				}
-				if u, ok := v.(*ssa.UnOp); ok && u.Op == token.MUL {
-					if ia, ok := u.X.(*ssa.IndexAddr); ok && fieldVarOfAddr(ia.X) == pidxF {
-						_, isConst := ia.Index.(*ssa.Const)
+				atom, pos := condAtom(ifi.Cond)
+				bo, ok := atom.(*ssa.BinOp)
+				if !ok {
+					continue
+				}
+				switch bo.Op {
+				case token.LSS, token.LEQ, token.GTR, token.GEQ:
+				default:
+					continue
+				}
+				isElem := func(v ssa.Value) bool {
+					v = stripConv(v)
+					if c, ok := v.(*ssa.Call); ok && c.Call.StaticCallee() != nil && accessor[c.Call.StaticCallee()] && len(c.Call.Args) == 2 {
+						_, isConst := c.Call.Args[1].(*ssa.Const)
 						return !isConst
 					}
+					if u, ok := v.(*ssa.UnOp); ok && u.Op == token.MUL {
+						if ia, ok := u.X.(*ssa.IndexAddr); ok && fieldVarOfAddr(ia.X) == pidxF {
+							_, isConst := ia.Index.(*ssa.Const)
+							return !isConst
+						}
+					}
+					return false
 				}
-				return false
-			}
-			if !isElem(bo.X) && !isElem(bo.Y) {
-				continue
-			}
-			// one edge must lead straight to an error return, the other must dominate the hand-off
-			for si := 0; si < 2; si++ {
-				sc := b.Succs[si]
-				ret, isRet := sc.Instrs[len(sc.Instrs)-1].(*ssa.Return)
-				if !isRet {
+				if !isElem(bo.X) && !isElem(bo.Y) {
 					continue
 				}
-				rv := rvals(ret)
-				if len(rv) == 0 || !isErrType(rv[len(rv)-1].Type()) || retMayBeNil(ret, len(rv)-1) {
-					continue
-				}
-				_ = pos
-				if reach(b.Succs[1-si], nil, nil)[handoff.Block()] {
-					okTest = true
+				// one edge must lead straight to an error return, the other must dominate the hand-off
+				for si := 0; si < 2; si++ {
+					sc := b.Succs[si]
+					ret, isRet := sc.Instrs[len(sc.Instrs)-1].(*ssa.Return)
+					if !isRet {
+						continue
+					}
+					rv := rvals(ret)
+					if len(rv) == 0 || !isErrType(rv[len(rv)-1].Type()) || retMayBeNil(ret, len(rv)-1) {
+						continue
+					}
+					_ = pos
+					if mustReach == nil || reach(b.Succs[1-si], nil, nil)[mustReach] {
+						found = true
+					}
 				}
 			}
+			return found
+		}
+		okTest = rangeTestIn(f, handoff.Block())
+		if !okTest {
+			// the checks may have been extracted into a method of the same type that returns an error: its call
+			// comes before the hand-off and the error is tested with the hand-off on the nil side
+			eachInstr(f, func(i ssa.Instruction) {
+				hc, ok := i.(*ssa.Call)
+				if !ok {
+					return
+				}
+				h := hc.Call.StaticCallee()
+				if h == nil || h.Blocks == nil || h.Signature.Recv() == nil || namedOf(h.Signature.Recv().Type()) != named || !rangeTestIn(h, nil) {
+					return
+				}
+				ev, has := errResult(hc)
+				if !has || ev == nil {
+					return
+				}
+				for _, b := range f.Blocks {
+					if ifi := blockIf(b); ifi != nil {
+						if x, nonNil, ok := nilTest(ifi.Cond); ok && x == ev {
+							if reach(b.Succs[1-nonNil], nil, nil)[handoff.Block()] && !reach(b.Succs[nonNil], map[edge]bool{}, nil)[handoff.Block()] {
+								okTest = true
+							}
+						}
+					}
+				}
+			})
 		}
 		if okTest {
 			r.ok(fname+": every primary index is range-checked (error exit) before the array is handed to the chunk decoders", p.IPos(handoff))
